@@ -426,6 +426,7 @@ Lemma plain_facts s o : plain o = true -> vsame s (fst (step s o)) /\ existsb is
 Proof.
   destruct o; try discriminate; intros _; unfold step; cbn [step_v].
   - destruct (existsb _ (lents s)); cbn [fst snd]; (split; [|reflexivity]); apply vsame_lfeats; reflexivity.
+  - destruct (eqb_eaddr e [0%N]); cbn [fst snd]; (split; [|reflexivity]); apply vsame_lfeats; reflexivity.
   - destruct (find _ (lents s)); cbn [fst snd]; (split; [|reflexivity]); [|apply vsame_refl].
     destruct (existsb _ (lfeats s)); [apply vsame_lfeats; reflexivity|].
     unfold vsame, view_r, view_q. cbn [lfeats]. apply views_app_fresh; reflexivity.
